@@ -224,7 +224,9 @@ impl RecvWindow {
                 Err(ErrorCode::InvalidData)?;
             }
 
-            if msg_len <= mtu && !hdr.is_final() {
+            // NOTE: The segment header takes space too, so an SDU fits in a single segment
+            // only if it is not longer than what is left of the MTU after the header
+            if msg_len as usize + hdr.len() <= mtu as usize && !hdr.is_final() {
                 warn!("RX data integrity failure: An SDU that fits in a single BTP segment must be final");
                 Err(ErrorCode::InvalidData)?;
             }
